@@ -220,6 +220,9 @@ theorem C06_step (n : Net) (o : Op) (hb : Buffered n) (ha : Adm n o) :
   | scRemove ids =>
     obtain ⟨h1, h2, h3⟩ := scRemove_spec ids n hb
     exact ⟨_, rfl, h1, fun _ => h2, h3⟩
+  | move t f =>
+    have := sync_move t f ha hb
+    exact ⟨_, rfl, this.1, fun _ _ => this.2, fun _ => this.2⟩
 
 /-- `Scenario.remove_lanelet(list)` that fails half-way (a later entry is not, or no longer, in the scenario:
     `KeyError`) — the exception is caught and the network used further: the index is still synchronised, and nothing
@@ -233,6 +236,19 @@ theorem C06_sync_after_failed_remove (n : Net) (hs : Sync n) (ids : List Int) :
 example : (scRemoveLoop (fromList id [⟨1, 1, [], []⟩, ⟨2, 2, [], []⟩, ⟨3, 3, [], []⟩]) [1, 1, 3]).2 = some .key ∧
     (scRemoveLoop (fromList id [⟨1, 1, [], []⟩, ⟨2, 2, [], []⟩, ⟨3, 3, [], []⟩]) [1, 1, 3]).1.lanelets.map (·.id) = [2, 3] := by
   decide
+
+/-- `LaneletNetwork.translate_rotate(t, 0)` (an exact translation; the operation re-reads the polygons and rebuilds
+    the tree): the index is synchronised afterwards, even if it was stale before, and every lanelet answers a query
+    moved by `t` exactly as it answered the original query before the move.  (Changing a member lanelet directly is
+    C11's subject and not modelled.) -/
+theorem C06_move (n : Net) (t : Pt) (f : Nat → Nat) (hf : Function.Injective f) (hb : Buffered n) :
+    Sync (moveNet t f n) ∧
+    ∀ (l : Lanelet) (tol : Rat) (p : Pt) (vs : List Pt),
+      withinTol tol (moveL t f l).poly.ring (p.add t) = withinTol tol l.poly.ring p ∧
+      ringsMeet (moveL t f l).poly.ring (vs.map (·.add t)) = ringsMeet l.poly.ring vs := by
+  refine ⟨sync_move t f hf hb, fun l tol p vs => ?_⟩
+  rw [moveL_ring]
+  exact ⟨withinTol_add tol _ p t, ringsMeet_add _ vs t⟩
 
 /-- `_buffered_polygons` mirrors the lanelets after ANY admissible operation sequence (whatever the rtree flags),
     and no operation raises. -/
